@@ -220,7 +220,12 @@ fn execute(sc: &Value) -> Map<String, Value> {
                 .collect();
             r.insert("calls".into(), Value::Array(logged));
             r.insert("path_cp".into(), cps(path));
-            match api::filter_is_match(&specs, path) {
+            // queries the same set answered before this one (their results are
+            // the subject of other records)
+            let earlier: Vec<&str> =
+                sc["earlier"].as_array().map(|a| a.iter().filter_map(|x| x.as_str()).collect()).unwrap_or_default();
+            r.insert("earlier_queries".into(), json!(earlier.len()));
+            match api::filter_is_match_after(&specs, &earlier, path) {
                 Ok(b) => r.insert("out".into(), json!(b)),
                 Err(e) => r.insert("regex_error".into(), json!(e)),
             };
